@@ -474,7 +474,8 @@ PANIC_PATTERNS = [
     ("arith", r"[\w\)\]]\s(\+|-|\*)\s[\w\(]"),
     ("arith_assign", r"(\+=|-=|\*=|/=|%=|<<=|>>=)"),
     ("shift", r"[\w\)\]]\s*(<<|>>)\s*[\w\(]"),
-    ("slice_fn", r"\.(split_at|copy_from_slice|swap|remove|swap_remove|drain|split_off|truncate|insert\s*\(\s*\d)\b"),
+    # Vec::remove(index) can panic; a map's remove(&key) cannot
+    ("slice_fn", r"\.(split_at|copy_from_slice|swap|swap_remove|drain|split_off|truncate|insert\s*\(\s*\d)\b|\.remove\s*\(\s*(?!&)"),
     ("from_utf8_unwrap", r"from_utf8_unchecked|get_unchecked"),
     ("exit", r"process::(exit|abort)"),
     ("unsafe", r"\bunsafe\b"),
